@@ -391,6 +391,176 @@ class Func:
                 self.elem_ids.add(e["n"])
         self._rpo = None
         self._dom = None
+        self.aliases = {}
+        try:
+            self._normalise_aliases()
+        except Exception:        # normalisation is an optimisation of precision, never a requirement
+            self.aliases = {}
+
+    # ------------------------------------------------------------------ element aliases
+    def _normalise_aliases(self):
+        """`struct tun_user *u = &users[i]; ... u->f ...` is rewritten to `users[i].f` (likewise `*p` and a bare `p`)
+        when p is a local pointer with a single definition `&lvalue`, its address is never taken, it is never
+        modified otherwise, and nothing the lvalue mentions is written on any path from the definition to a use.
+        All engines then see through such aliases.  Copied nodes get fresh (negative) ids."""
+        cand = {}
+        for l in self.locals:
+            if l["t"].get("k") == "ptr":
+                cand[l["ref"]["id"]] = {"name": l["ref"]["name"], "defs": [], "bad": False}
+        if not cand:
+            return
+        where = {}                   # node id of element -> (block id, index)
+        for b in self.blocks.values():
+            for i, e in enumerate(b.elems):
+                where[e["n"]] = (b.id, i)
+        for b in self.blocks.values():
+            for i, e in enumerate(b.elems):
+                for x in walk(e):
+                    k = x.get("k")
+                    if k == "Decl":
+                        for d in x["decls"]:
+                            if d["ref"]["id"] in cand and d.get("init") is not None:
+                                cand[d["ref"]["id"]]["defs"].append((b.id, i, d["init"]))
+                    elif k == "Bin" and x["op"] in ASSIGN_OPS:
+                        t = sk(x["a"][0])
+                        if t.get("k") == "Ref" and t["ref"]["id"] in cand:
+                            if x["op"] == "=":
+                                cand[t["ref"]["id"]]["defs"].append((b.id, i, x["a"][1]))
+                            else:
+                                cand[t["ref"]["id"]]["bad"] = True
+                    elif k == "Un" and x["op"] in ("post++", "post--", "pre++", "pre--", "&"):
+                        t = sk(x["a"][0])
+                        if t.get("k") == "Ref" and t["ref"]["id"] in cand:
+                            cand[t["ref"]["id"]]["bad"] = True
+        fresh = [-1000]
+
+        def copy(n):
+            if isinstance(n, dict):
+                c = {k: copy(v) for k, v in n.items()}
+                if "n" in c:
+                    fresh[0] -= 1
+                    c["n"] = fresh[0]
+                return c
+            if isinstance(n, list):
+                return [copy(v) for v in n]
+            return n
+
+        def lvalue_ok(e):
+            e = sk(e)
+            k = e.get("k")
+            if k == "Ref":
+                return True
+            if k == "Mem":
+                return lvalue_ok(e["a"][0])
+            if k == "Sub":
+                return lvalue_ok(e["a"][0]) and not any(y.get("k") in ("Call", "Un") and (y.get("k") == "Call" or y["op"] in ("post++", "post--", "pre++", "pre--"))
+                                                          or (y.get("k") == "Bin" and y["op"] in ASSIGN_OPS) for y in walk(e["a"][1]))
+            return False
+        for pid, c in cand.items():
+            if c["bad"] or len(c["defs"]) != 1:
+                continue
+            db, di, rhs = c["defs"][0]
+            r = sk(rhs)
+            if not (r.get("k") == "Un" and r["op"] == "&" and lvalue_ok(r["a"][0])):
+                continue
+            target = sk(r["a"][0])
+            fv = {y["ref"]["id"] for y in walk(target) if y.get("k") == "Ref" and y["ref"].get("rk") in ("local", "param")}
+            if pid in fv:
+                continue
+            # writes to the free variables (or escapes of their address)
+            writes = set()
+            for b in self.blocks.values():
+                for i, e in enumerate(b.elems):
+                    for x in walk(e):
+                        t = None
+                        if x.get("k") == "Bin" and x["op"] in ASSIGN_OPS:
+                            t = sk(x["a"][0])
+                        elif x.get("k") == "Un" and x["op"] in ("post++", "post--", "pre++", "pre--", "&"):
+                            t = sk(x["a"][0])
+                        elif x.get("k") == "Decl":
+                            for d in x["decls"]:
+                                if d["ref"]["id"] in fv:
+                                    writes.add((b.id, i))
+                        if t is not None and t.get("k") == "Ref" and t["ref"]["id"] in fv:
+                            writes.add((b.id, i))
+            uses = []
+            for b in self.blocks.values():
+                seqs = list(enumerate(b.elems))
+                for i, e in seqs:
+                    if any(y.get("k") == "Ref" and y["ref"]["id"] == pid for y in walk(e)) and (b.id, i) != (db, di):
+                        uses.append((b.id, i))
+                if b.term and b.term.get("cond") is not None and any(
+                        y.get("k") == "Ref" and y["ref"]["id"] == pid for y in walk(b.term["cond"])):
+                    uses.append((b.id, len(b.elems)))
+            ok = True
+            if writes:
+                # forward from the definition: (block, index, dirty)
+                seen = set()
+                stack = [(db, di + 1, False)]
+                useset = set(uses)
+                while stack and ok:
+                    bid, idx, dirty = stack.pop()
+                    b = self.blocks[bid]
+                    n = len(b.elems)
+                    i = idx
+                    stop = False
+                    while i <= n:
+                        if (bid, i) == (db, di):
+                            stop = True          # the alias is re-established
+                            break
+                        if (bid, i) in useset and dirty:
+                            ok = False
+                            break
+                        if i < n and (bid, i) in writes:
+                            dirty = True
+                        i += 1
+                    if not ok or stop:
+                        continue
+                    for s_ in b.succs:
+                        if s_ is not None and (s_, dirty) not in seen:
+                            seen.add((s_, dirty))
+                            stack.append((s_, 0, dirty))
+            # every use must be reached from the definition (dominated by it)
+            if ok and uses:
+                dom = self.dominators()
+                for ub, ui in uses:
+                    if not (self.dominates(db, ub) and (db != ub or di < ui)):
+                        ok = False
+                        break
+            if not ok:
+                continue
+            self.aliases[c["name"]] = pp(target)
+
+            def rewrite(n):
+                if isinstance(n, list):
+                    return [rewrite(v) for v in n]
+                if not isinstance(n, dict):
+                    return n
+                k = n.get("k")
+                if k == "Decl":
+                    return n
+                if k == "Bin" and n.get("op") == "=" and sk(n["a"][0]).get("k") == "Ref" and sk(n["a"][0])["ref"]["id"] == pid:
+                    return n                # the definition itself
+                if k == "Mem" and n.get("arrow") and sk(n["a"][0]).get("k") == "Ref" and sk(n["a"][0])["ref"]["id"] == pid:
+                    m = dict(n)
+                    m["arrow"] = False
+                    m["a"] = [copy(target)]
+                    return m
+                if k == "Un" and n.get("op") == "*" and sk(n["a"][0]).get("k") == "Ref" and sk(n["a"][0])["ref"]["id"] == pid:
+                    m = copy(target)
+                    m["n"] = n.get("n", m.get("n"))
+                    return m
+                if k == "Ref" and n["ref"]["id"] == pid:
+                    fresh[0] -= 1
+                    return {"k": "Un", "op": "&", "a": [copy(target)], "t": n.get("t"), "l": n.get("l"), "n": n.get("n", fresh[0])}
+                out = {}
+                for kk, v in n.items():
+                    out[kk] = rewrite(v) if kk in ("a", "init", "cond", "callee") else v
+                return out
+            for b in self.blocks.values():
+                b.elems = [rewrite(e) for e in b.elems]
+                if b.term and b.term.get("cond") is not None:
+                    b.term["cond"] = rewrite(b.term["cond"])
 
     @property
     def where(self):
